@@ -1077,8 +1077,13 @@ func genPOsapFar(r *rng, id string, cnt counters, emit func(line, out string)) *
 		return p
 	}
 	far := []byte("XYZ-UVW-KLMN-")
+	// a longer n-gram that occurs ONLY at the very beginning: more than 1 MiB away a 12-byte match is
+	// still far cheaper than 12 literals, so the minimum-cost parse of the last block must use it
+	far2 := []byte("QRSTUVWXYZ01")
 	var data []byte
 	data = append(data, far...)
+	data = append(data, far2...)
+	data = append(data, '-')
 	data = append(data, filler(hist)...)
 	// near: the 2- and 3-byte prefixes of the far n-grams, at most a few dozen bytes in front of the last
 	// block (a 2-byte match only pays off below an offset of 2048); the last block starts at a block
@@ -1093,6 +1098,8 @@ func genPOsapFar(r *rng, id string, cnt counters, emit func(line, out string)) *
 	last = append(last, filler(r.rangeIn(0, 3))...)
 	last = append(last, []byte("KLMN")...)
 	last = append(last, filler(r.rangeIn(0, 4))...)
+	last = append(last, far2...)
+	last = append(last, filler(r.rangeIn(0, 2))...)
 	data = append(data, last...)
 	e.step("write " + hx(data))
 	for g := 0; g < 40 && !e.dead && e.unparsed() > len(last); g++ {
@@ -1174,6 +1181,77 @@ func genPSABudget(kind string, r *rng, id string, cnt counters, emit func(line, 
 		do(fmt.Sprintf("parse %d", fl))
 	}
 	cnt.inc("p.sabudget")
+	emit("E", "E")
+	return e
+}
+
+// genPMidOSAP: the optimizing parser at a geometry of a few KiB with strings whose only earlier
+// occurrence is more than 2048 bytes away (with MinMatchLen 2 a 2-byte match stops paying off
+// there, longer ones do not: anything that prunes far edges by the cost of the SHORTEST match loses
+// the optimum), next to near repeats. Model correspondence and the brute-force optimum both apply
+// (one script per shard: the list-based suffix sort of the model needs about a second).
+func genPMidOSAP(r *rng, id string, cnt counters, emit func(line, out string)) *pExec {
+	c := pcfg{kind: "OSAP", f: map[string]int{}}
+	bs := r.rangeIn(3000, 4200)
+	c.f["BufferSize"] = bs
+	c.f["WindowSize"] = r.pick(bs, bs, bs-100)
+	c.f["ShrinkSize"] = r.pick(bs/2, 100, bs-1)
+	c.f["BlockSize"] = r.pick(bs, 1024, 700)
+	c.f["MinMatchLen"] = r.pick(2, 2, 3)
+	c.f["MaxMatchLen"] = r.pick(0, 273, 16)
+	e, st := newPExec(c, cnt)
+	emit(e.header(id), fmt.Sprintf("S %s %s", id, st))
+	e.lines = append(e.lines, e.header(id))
+	if st != "ok" {
+		emit("E", "E")
+		return e
+	}
+	do := func(line string) string {
+		out := e.step(line)
+		emit(line, out)
+		return out
+	}
+	filler := func(n int) []byte {
+		p := make([]byte, n)
+		for i := range p {
+			p[i] = byte(0x80 + r.intn(120)) // large alphabet: hardly any accidental repeat
+		}
+		return p
+	}
+	var planted [][]byte
+	var data []byte
+	for k := r.rangeIn(3, 6); k > 0; k-- {
+		w := make([]byte, r.rangeIn(4, 24))
+		for i := range w {
+			w[i] = byte('a' + r.intn(26))
+		}
+		planted = append(planted, w)
+		data = append(data, filler(r.rangeIn(5, 60))...)
+		data = append(data, w...)
+	}
+	data = append(data, filler(2100+r.intn(300)-len(data)%7)...)
+	for len(data) < bs-200 {
+		w := planted[r.intn(len(planted))]
+		data = append(data, w[:r.rangeIn(2, len(w))]...)
+		data = append(data, filler(r.rangeIn(1, 40))...)
+		if r.chance(30) { // a near repeat of what was just written
+			k := r.rangeIn(2, 12)
+			data = append(data, data[len(data)-k-r.intn(20)-1:][:k]...)
+		}
+	}
+	cut := r.pick(len(data), len(data), r.rangeIn(2200, len(data)))
+	do("write " + hx(data[:cut]))
+	fl := r.pick(0, 0, 1)
+	for g := 0; g < 12 && !e.dead && e.unparsed() > 0; g++ {
+		do(fmt.Sprintf("parse %d", fl))
+	}
+	if cut < len(data) {
+		do("write " + hx(data[cut:]))
+		for g := 0; g < 12 && !e.dead && e.unparsed() > 0; g++ {
+			do(fmt.Sprintf("parse %d", fl))
+		}
+	}
+	cnt.inc("p.midosap")
 	emit("E", "E")
 	return e
 }
